@@ -138,13 +138,17 @@ func sumFloats(members []interface{}) float64 {
 	return s
 }
 
-func simplifyTyped(s interface {
+type c20simplifier interface {
 	LineString(orb.LineString) orb.LineString
 	MultiLineString(orb.MultiLineString) orb.MultiLineString
 	Ring(orb.Ring) orb.Ring
 	Polygon(orb.Polygon) orb.Polygon
 	MultiPolygon(orb.MultiPolygon) orb.MultiPolygon
-}) func(orb.Geometry) (interface{}, bool) {
+}
+
+// simplifyTyped: the kind-specific methods of a FRESH simplifier value (the generic entry is driven on one long-lived
+// value that sees every kind in turn, so state kept in the simplifier between calls shows as a difference)
+func simplifyTyped(mk func() c20simplifier) func(orb.Geometry) (interface{}, bool) {
 	nilIfEmpty := func(g orb.Geometry, n int) (interface{}, bool) {
 		if n == 0 {
 			return orb.Geometry(nil), true
@@ -153,6 +157,7 @@ func simplifyTyped(s interface {
 	}
 	return func(g orb.Geometry) (interface{}, bool) {
 		cp := refmodel.Copy(g)
+		s := mk()
 		switch x := cp.(type) {
 		case nil:
 			return orb.Geometry(nil), true
@@ -200,10 +205,10 @@ func c20registry() []c20entry {
 	add := func(e c20entry) { es = append(es, e) }
 
 	add(c20entry{name: "orb.Clone", covers: []string{"orb.Clone"}, readOnly: true,
-		call: func(g orb.Geometry) interface{} { return orb.Clone(g) },
+		call:  func(g orb.Geometry) interface{} { return orb.Clone(g) },
 		typed: func(g orb.Geometry) (interface{}, bool) { return refmodel.Copy(g), true }})
 	add(c20entry{name: "orb.Equal(g,g)", covers: []string{"orb.Equal"}, readOnly: true,
-		call: func(g orb.Geometry) interface{} { return orb.Equal(g, refmodel.Copy(g)) },
+		call:  func(g orb.Geometry) interface{} { return orb.Equal(g, refmodel.Copy(g)) },
 		typed: func(g orb.Geometry) (interface{}, bool) { return true, true }})
 	add(c20entry{name: "orb.Round", covers: []string{"orb.Round"},
 		call: func(g orb.Geometry) interface{} { return orb.Round(g) },
@@ -237,7 +242,7 @@ func c20registry() []c20entry {
 			return []interface{}{c.Equal(cl), c.Bound(), c.Dimensions()}
 		}})
 	add(c20entry{name: "planar.Area", covers: []string{"planar.Area"}, readOnly: true,
-		call: func(g orb.Geometry) interface{} { return planar.Area(g) },
+		call:  func(g orb.Geometry) interface{} { return planar.Area(g) },
 		typed: func(g orb.Geometry) (interface{}, bool) { _, a := planar.CentroidArea(g); return a, true },
 		combine: func(c orb.Collection, ms []interface{}) (interface{}, bool) {
 			max := c.Dimensions()
@@ -256,7 +261,7 @@ func c20registry() []c20entry {
 		typed:   func(g orb.Geometry) (interface{}, bool) { return lengthRef(g, planar.Distance), g != nil },
 		combine: func(c orb.Collection, ms []interface{}) (interface{}, bool) { return sumFloats(ms), true }})
 	add(c20entry{name: "planar.DistanceFrom", covers: []string{"planar.DistanceFrom", "planar.DistanceFromWithIndex"}, readOnly: true,
-		call: func(g orb.Geometry) interface{} { return planar.DistanceFrom(g, q) },
+		call:  func(g orb.Geometry) interface{} { return planar.DistanceFrom(g, q) },
 		typed: func(g orb.Geometry) (interface{}, bool) { d, _ := planar.DistanceFromWithIndex(g, q); return d, true },
 		combine: func(c orb.Collection, ms []interface{}) (interface{}, bool) {
 			d := math.Inf(1)
@@ -381,7 +386,10 @@ func c20registry() []c20entry {
 		n string
 		s orb.Simplifier
 		t func(orb.Geometry) (interface{}, bool)
-	}{{"DouglasPeucker", dp, simplifyTyped(dp)}, {"Radial", rd, simplifyTyped(rd)}, {"VisvalingamThreshold", vs, simplifyTyped(vs)}, {"VisvalingamKeep", vk, simplifyTyped(vk)}} {
+	}{{"DouglasPeucker", dp, simplifyTyped(func() c20simplifier { return simplify.DouglasPeucker(0.5) })},
+		{"Radial", rd, simplifyTyped(func() c20simplifier { return simplify.Radial(planar.Distance, 0.5) })},
+		{"VisvalingamThreshold", vs, simplifyTyped(func() c20simplifier { return simplify.VisvalingamThreshold(0.5) })},
+		{"VisvalingamKeep", vk, simplifyTyped(func() c20simplifier { return simplify.VisvalingamKeep(3) })}} {
 		s := sm.s
 		add(c20entry{name: "simplify." + sm.n + ".Simplify", covers: []string{"simplify.(DouglasPeuckerSimplifier).Simplify", "simplify.(RadialSimplifier).Simplify", "simplify.(VisvalingamSimplifier).Simplify"},
 			call:  func(g orb.Geometry) interface{} { return s.Simplify(g) },
@@ -609,8 +617,8 @@ func c20values() []orb.Geometry {
 		orb.MultiPoint(nil), orb.MultiPoint{}, orb.MultiPoint{p}, orb.MultiPoint{{1, 1}, {5, 5}, {9, 2}},
 		orb.LineString(nil), orb.LineString{}, orb.LineString{p}, orb.LineString{{1, 1}, {5, 5}, {9, 2}, {9, 2}},
 		orb.MultiLineString(nil), orb.MultiLineString{}, orb.MultiLineString{orb.LineString{}}, orb.MultiLineString{orb.LineString{p}}, orb.MultiLineString{{{1, 1}, {5, 5}}, {}, {{9, 2}, {3, 8}, {4, 4}}},
-		orb.Ring(nil), orb.Ring{}, orb.Ring{p}, orb.Ring{p, p}, sq(1, 1, 8),
-		orb.Polygon(nil), orb.Polygon{}, orb.Polygon{orb.Ring{}}, orb.Polygon{orb.Ring{p}}, orb.Polygon{sq(1, 1, 8)}, orb.Polygon{sq(1, 1, 8), hole}, orb.Polygon{sq(1, 1, 8), orb.Ring{}}, orb.Polygon{sq(1, 1, 8), orb.Ring{p}},
+		orb.Ring(nil), orb.Ring{}, orb.Ring{p}, orb.Ring{p, p}, sq(1, 1, 8), sq(1, 1, 8)[:4], // (the last: the same square without the repeated closing vertex)
+		orb.Polygon(nil), orb.Polygon{}, orb.Polygon{orb.Ring{}}, orb.Polygon{orb.Ring{p}}, orb.Polygon{sq(1, 1, 8)}, orb.Polygon{sq(1, 1, 8), hole}, orb.Polygon{sq(1, 1, 8), orb.Ring{}}, orb.Polygon{sq(1, 1, 8), orb.Ring{p}}, orb.Polygon{sq(1, 1, 8)[:4], hole[:4]},
 		orb.MultiPolygon(nil), orb.MultiPolygon{}, orb.MultiPolygon{orb.Polygon{}}, orb.MultiPolygon{orb.Polygon{orb.Ring{}}}, orb.MultiPolygon{{sq(1, 1, 3)}, orb.Polygon{}, {sq(5, 1, 4), orb.Ring{{6, 2}, {6, 3}, {7, 3}, {7, 2}, {6, 2}}}},
 		orb.Bound{Min: orb.Point{1, 1}, Max: orb.Point{4, 5}}, orb.Bound{Min: p, Max: p}, orb.Bound{},
 		orb.Collection(nil), orb.Collection{},
